@@ -272,6 +272,10 @@ func (d *Diamond) mergeSplits(filePackedC chan<- filePacked, errorC chan<- error
 
 				existing := obj.(mergeEntry)
 				if file.Hash == existing.Hash {
+					if file.Timestamp.After(existing.Timestamp) {
+						// same content uploaded again later: keep track of the latest upload time for arbitration
+						mergeIndex, _, _ = mergeIndex.Insert(key, mergeEntry{BundleEntry: file, ID: splitID})
+					}
 					continue
 				}
 
@@ -299,7 +303,7 @@ func (d *Diamond) mergeSplits(filePackedC chan<- filePacked, errorC chan<- error
 					default:
 						// report conflict/checkpoint: add conflicting file to the bundle in some special location
 						// (e.g. .conflicts/{splitID}/{path}) and update the key with the newer file
-						existing.NameWithPath = d.deconflicter(splitID, existing.NameWithPath)
+						existing.NameWithPath = d.deconflicter(existing.ID, existing.NameWithPath)
 						d.l.Debug("deconflicting", zap.String("from", file.NameWithPath), zap.String("to", existing.NameWithPath))
 						mergeIndex, _, _ = mergeIndex.Insert([]byte(existing.NameWithPath), existing)
 						// overwrite with new version
